@@ -1,6 +1,7 @@
 package main
 
 import (
+	"strings"
 	"fmt"
 	"go/ast"
 	"go/token"
@@ -24,7 +25,10 @@ func (x *Exec) loopSpecOf(s ast.Stmt) *LoopSpec {
 			x.noteAssume(fmt.Sprintf("loop %d of %s abstracted (no invariant): everything it assigns is havocked, its body is checked from an arbitrary iteration", n, x.unit))
 			return &LoopSpec{}
 		}
-		engineFail("loop %d of %s has no invariant", n, x.unit)
+		// a loop without invariant (e.g. one introduced by a change to the code) is checked with the
+		// invariant `true`: sound, and obligations that depended on what the loop does are left to fail
+		x.noteAssume(fmt.Sprintf("loop %d of %s has no invariant in the contract file: abstracted with invariant true (everything it assigns is havocked)", n, x.unit))
+		return &LoopSpec{}
 	}
 	return sp
 }
@@ -125,6 +129,42 @@ func (x *Exec) modified(n ast.Node, ms *modSet) {
 				for _, a := range c.Assigns {
 					ms.heap[a] = true
 				}
+				if c.HasMod {
+					sig := fn.Type().(*types.Signature)
+					for _, m := range c.Modifies {
+						if i := strings.LastIndex(m, "."); i > 0 {
+							// the whole field array (sound over-approximation inside loops)
+							for pi, pn := range c.Params {
+								if pn != m[:i] {
+									continue
+								}
+								var pt types.Type
+								if sig.Recv() != nil {
+									if pi == 0 {
+										pt = sig.Recv().Type()
+									} else if pi-1 < sig.Params().Len() {
+										pt = sig.Params().At(pi - 1).Type()
+									}
+								} else if pi < sig.Params().Len() {
+									pt = sig.Params().At(pi).Type()
+								}
+								if pt == nil {
+									continue
+								}
+								if p, ok := pt.Underlying().(*types.Pointer); ok {
+									pt = p.Elem()
+								}
+								if stt, ok := pt.Underlying().(*types.Struct); ok {
+									for k := 0; k < stt.NumFields(); k++ {
+										if stt.Field(k).Name() == m[i+1:] {
+											ms.heap[x.fieldKey(pt, stt.Field(k))] = true
+										}
+									}
+								}
+							}
+						}
+					}
+				}
 				return true
 			}
 			if x.isOpaqueCallee(fn) && x.con != nil && x.con.Opts["opaque-havoc"] == "none" {
@@ -205,10 +245,87 @@ func (x *Exec) checkInvs(sp *LoopSpec, st *State, kind string, ord int) {
 		if lab == "" {
 			lab = fmt.Sprintf("inv%d", i+1)
 		}
+		if inv.Prop == "assume" {
+			// an assumption about the state in which the loop is entered (not checked; it persists only
+			// through what the loop leaves unmodified)
+			if kind == "inv-init" {
+				st.assume(x.evalBool(inv.Expr, st))
+				x.noteAssume("assumed at the entry of loop " + fmt.Sprint(ord) + " of " + x.unit + ": " + strings.TrimSpace(inv.Src))
+			}
+			continue
+		}
 		phi := x.evalBool(inv.Expr, st)
 		x.contract = false
 		x.oblige(st, kind, fmt.Sprintf("loop%d.%s", ord, lab), phi, inv.Src)
 		x.contract = true
+	}
+}
+
+// checkStep: the loop body's own contract, checked in every state in which one iteration is left
+// (fall-through, continue, break or return); old(...) denotes the state at the start of that iteration.
+func (x *Exec) checkStep(sp *LoopSpec, start *State, ends []*State, ord int) {
+	if len(sp.Step) == 0 {
+		return
+	}
+	save := x.saveContractCtx()
+	defer x.restoreContractCtx(save)
+	for _, o := range ends {
+		if o.out == outPanic {
+			continue
+		}
+		savePos := x.inlineLitPos
+		if p, ok := o.names["$loopPos"].(token.Pos); ok {
+			x.inlineLitPos = p
+		}
+		saveOld := o.old
+		o.old = start
+		for i, cl := range sp.Step {
+			lab := cl.Label
+			if lab == "" {
+				lab = fmt.Sprintf("step%d", i+1)
+			}
+			x.contract = true
+			phi := x.evalBool(cl.Expr, o)
+			x.contract = false
+			ob := x.oblige(o, "loop-step", fmt.Sprintf("loop%d.%s", ord, lab), phi, cl.Src)
+			if cl.Prop != "" && cl.Prop != "assume" {
+				ob.Prop = cl.Prop
+			}
+		}
+		o.old = saveOld
+		x.inlineLitPos = savePos
+	}
+}
+
+// checkAfter: the loop's postcondition, checked in every state that leaves the loop normally.
+func (x *Exec) checkAfter(sp *LoopSpec, outs []*State, ord int) {
+	if len(sp.After) == 0 {
+		return
+	}
+	save := x.saveContractCtx()
+	defer x.restoreContractCtx(save)
+	for _, o := range outs {
+		if o.out != outNormal {
+			continue
+		}
+		savePos := x.inlineLitPos
+		if p, ok := o.names["$loopPos"].(token.Pos); ok {
+			x.inlineLitPos = p
+		}
+		for i, cl := range sp.After {
+			lab := cl.Label
+			if lab == "" {
+				lab = fmt.Sprintf("after%d", i+1)
+			}
+			x.contract = true
+			phi := x.evalBool(cl.Expr, o)
+			x.contract = false
+			ob := x.oblige(o, "loop-post", fmt.Sprintf("loop%d.%s", ord, lab), phi, cl.Src)
+			if cl.Prop != "" && cl.Prop != "assume" {
+				ob.Prop = cl.Prop
+			}
+		}
+		x.inlineLitPos = savePos
 	}
 }
 
@@ -222,6 +339,9 @@ func (x *Exec) assumeInvs(sp *LoopSpec, st *State) {
 	}
 	defer func() { x.inlineLitPos = savePos }()
 	for _, inv := range sp.Invs {
+		if inv.Prop == "assume" {
+			continue
+		}
 		st.assume(x.evalBool(inv.Expr, st))
 	}
 }
@@ -287,6 +407,7 @@ func (x *Exec) execFor(s *ast.ForStmt, st *State) []*State {
 			}
 		}
 	}
+	x.checkAfter(sp, out, ord)
 	return out
 }
 
@@ -398,7 +519,10 @@ func (x *Exec) execRange1(s *ast.RangeStmt, sp *LoopSpec, ord int, st *State) []
 	body := st.clone()
 	body.assume("(< " + i.S + " " + n.S + ")")
 	bindKV(body, i, elem(body, i))
-	for _, b := range x.execBlock(s.Body.List, body) {
+	iterStart := body.clone()
+	iterEnds := x.execBlock(s.Body.List, body)
+	x.checkStep(sp, iterStart, iterEnds, ord)
+	for _, b := range iterEnds {
 		switch b.out {
 		case outNormal, outContinue:
 			b.out = outNormal
